@@ -38,6 +38,10 @@ func main() {
 	r.Assume("setops/keep: when dst is memory separate from s1 and s2 the dst-taking functions leave s1 and s2 as they were (only the InPlace variants are documented to reorder s1); s2 is never written by an InPlace variant when it is separate from s1; a result returned in memory of its own (dst nil or new) is not changed by later calls whose arguments are other memory")
 
 	r.Cases("setops/rand", r.N(60000, 3000000), ev.Opt{HangViolation: true}, randSetCase)
+	// the same workload on parallel workers under the race detector: package-level state shared
+	// between instances that no goroutine shares is reported from the happens-before relation,
+	// whether or not the accesses collide in this run (and however loaded the machine is)
+	r.CasesProc("setops/rand/race-parallel", r.N(1200, 30000), ev.Opt{Bin: "race", Procs: 2, Workers: 8, AlwaysLog: true, HangViolation: true, MaxCaseSeconds: 120}, randSetCase)
 	small := smallScope{sym: 3, len1: 5, len2: 3}
 	if r.Thorough() {
 		small = smallScope{sym: 4, len1: 6, len2: 3}
